@@ -55,8 +55,7 @@ Definition wf_conn (d : design) (m : module) (x : inst) (ports : list (name * Z)
   _ <- all_ok (wf_leaf d m) (sx_leaves (snd c)) ;;
   match is_nc m (snd c) with
   | Some site =>
-      (* a no-connect: used once, and the port it sits on is referenced nowhere *)
-      _ <- check (nc_uses m site =? 1) ENoConn ;;
+      (* a no-connect (possibly shared by several ports): the port it sits on is referenced nowhere *)
       check (refs_to m (i_name x) (fst c) =? 0) ENoConn
   | None =>
       _ <- check (negb (has_nc_inside m (snd c))) ENoConn ;;
